@@ -12,6 +12,26 @@ CHECKS = {
     note="Trusts the interposer to see every mutating syscall (cross-checked by an audit hook), the ordered-mode POSIX crash model, "
          "and tmpfs + CPython io above the syscall layer. zstd branch absent.",
     technique="deterministic simulation: I/O interposer + exhaustive per-event fault/crash injection + shadow-disk crash states"),
+ "C01": dict(level="exploration", ref="4/C01",
+    text="Seeded worlds/configs/turn sequences executed in four environments that differ only in simulator-owned nondeterminism "
+         "(steady clock; slow/fast/jumping/skewed/stalled wall clock and perf counter far from the logical now; another "
+         "PYTHONHASHSEED in a separate fresh or warm interpreter; warm re-run) and compared byte for byte on utterances, "
+         "canonical logs and snapshot bodies. Sampling, not proof.",
+    note="Trusts the clock/datetime seams to be the only time sources of the engine (grep-audited); time-driven features "
+         "(wall budgets, TTLs) are kept out of the perturbation as the property scopes them.",
+    technique="deterministic simulation: simulated clock fault profiles + hash-seed/process axis, differential byte comparison"),
+ "C04": dict(level="exploration", ref="4/C04",
+    text="Seeded histories of turns with generated plan deltas over a recording, fault-injecting store double (batch raises, "
+         "single deltas raise, odd result shapes, failing invalidation) with kill switch, cadence and bust mode toggled mid-history; "
+         "a reference model of the hand-off, version, invalidation and cadence is checked after every turn.",
+    note="Store double is all-or-nothing by construction; planner deltas enter through the orchestrator's t3_deliberate seam.",
+    technique="deterministic simulation: fault-injecting store double + reference model over seeded histories"),
+ "C05": dict(level="exploration", ref="4/C05",
+    text="One history, two arms (configured caches vs all caches off) under the same simulated clock; histories interleave turns "
+         "with graph/memory edits, agent and state switches, TTL-crossing clock advances and config changes; stage results used by "
+         "the orchestrator are compared per turn; failures are explained by necessary-feature ablation and per-layer attribution.",
+    note="TTL clocks are the caches' own time_fn parameter bound to the simulated clock; fan-out/quality/hybrid are off here.",
+    technique="deterministic simulation: differential cached/uncached execution over seeded mutation histories with simulated TTL clock"),
 }
 
 NA = {
